@@ -21,15 +21,21 @@ def stage_judge_fold(run, resfile, name="judge_fold"):
     run.traces += j["judged"]
     run.distinct += j["judged"]
     run.stage(name, renders_judged=j["judged"], failures=j["failures"], known=j["known"], secs=j["secs"], jvms=j["jvms"])
+    docs = "docs" in name
     for vf in vfiles:
-        run.add_verdicts(vf, lambda v: {"pipeline": "foldtext", "q": v.get("q")})
+        run.add_verdicts(vf, lambda v: {"pipeline": "foldtext", "q": v.get("q"), "doc": docs})
 
 
 def replay_fold(run, rp):
     sub = Run(run.prop, run.tier, run.seed, replay=True)
     sub.work = run.sub("replay_%d" % len(os.listdir(run.work)))
     res = os.path.join(sub.work, "res.ndjson")
-    sub.harness(["fold-text", "-q", rp["q"], "-out", res])
+    if rp.get("doc"):
+        one = os.path.join(sub.work, "one.ndjson")
+        open(one, "w").write(json.dumps({"id": 1, "doc": rp["q"]}) + "\n")
+        sub.harness(["fold-docs", "-in", one, "-out", res])
+    else:
+        sub.harness(["fold-text", "-q", rp["q"], "-out", res])
     stage_judge_fold(sub, res)
     return bool(sub.failures) or bool(sub.known)
 
